@@ -4,13 +4,17 @@ MeshRegion.distributePointsNonorthogonal) and hypnotoad/core/equilibrium.py (Equ
 
 A non-orthogonal mesh keeps, from the moment its regions are created,
 * the skeleton: the distribution of points along the separatrices and the 'orthogonal' spacing functions (sfunc_orthogonal_list) derived
-  from the perpendicular lines through them — these depend on `nonorthogonal_spacing_method` only (of the non-orthogonal settings);
+  from the perpendicular lines through them — these depend on the non-orthogonal settings (the spacing method and, for some methods,
+  the spacing lengths);
 * the recorded non-orthogonal options of the Equilibrium (what is written to the grid file) and the options each region works with;
 * the points, placed on the FineContours by a function of (skeleton, region options).
-`redistribute` is Mesh.redistributePoints: record the new options, hand them to every region and place the points again — re-creating the
-regions when the spacing method differs from the recorded one. `place` is abstract: that the real placement is a function of the skeleton and the
-settings alone (no dependence on the previous point positions through cached FineContours) is the numerical claim the correspondence check
-exercises on real grids.
+`redistribute` is Mesh.redistributePoints as it is now: record the new options; if they equal the previous ones do nothing, otherwise
+re-create the regions (makeRegions). `place` and `skel` are abstract: that the real construction is a function of the settings alone is the
+numerical claim the correspondence check exercises on real grids.
+
+The two variants below are the behaviours that existed before the repairs and are kept as named regressions:
+`redistributeRegrid` never re-creates the regions (positions are re-placed on the old skeleton), `redistributeStale` additionally leaves the
+regions' options untouched when the new settings dict is empty.
 -/
 namespace Regrid
 
@@ -28,21 +32,20 @@ structure Mesh (N S P : Type) where
 variable {N S P : Type}
 
 /-- Mesh(equilibrium, settings): regions created with the settings, then distributePointsNonorthogonal() -/
-def build (skel : Nat → S) (place : S → Settings N → P) (s : Settings N) : Mesh N S P :=
-  { skeleton := skel s.method, recorded := s, region := s, pts := place (skel s.method) s }
+def build (skel : Settings N → S) (place : S → Settings N → P) (s : Settings N) : Mesh N S P :=
+  { skeleton := skel s, recorded := s, region := s, pts := place (skel s) s }
 
 /-- Mesh.redistributePoints(settings) -/
-def redistribute (skel : Nat → S) (place : S → Settings N → P) (m : Mesh N S P) (s : Settings N) : Mesh N S P :=
-  if s.method ≠ m.recorded.method then build skel place s
-  else { m with recorded := s, region := s, pts := place m.skeleton s }
+def redistribute [DecidableEq N] (skel : Settings N → S) (place : S → Settings N → P) (m : Mesh N S P) (s : Settings N) : Mesh N S P :=
+  if s = m.recorded then m else build skel place s
 
-/-- the regression this guards against: the regions keep their previous options when the new settings dict is empty -/
-def redistributeStale (skel : Nat → S) (place : S → Settings N → P) (isEmpty : Settings N → Bool) (m : Mesh N S P) (s : Settings N) : Mesh N S P :=
-  if isEmpty s then { m with recorded := s, pts := place m.skeleton m.region }
-  else redistribute skel place m s
-
-/-- redistributePoints without the re-creation of the regions on a method change (the behaviour before the fix) -/
-def redistributeNoRebuild (place : S → Settings N → P) (m : Mesh N S P) (s : Settings N) : Mesh N S P :=
+/-- regression: re-grid on the skeleton of the first build, never re-create the regions -/
+def redistributeRegrid (place : S → Settings N → P) (m : Mesh N S P) (s : Settings N) : Mesh N S P :=
   { m with recorded := s, region := s, pts := place m.skeleton s }
+
+/-- regression: as above, and the regions keep their previous options when the new settings dict is empty -/
+def redistributeStale (place : S → Settings N → P) (isEmpty : Settings N → Bool) (m : Mesh N S P) (s : Settings N) : Mesh N S P :=
+  if isEmpty s then { m with recorded := s, pts := place m.skeleton m.region }
+  else redistributeRegrid place m s
 
 end Regrid
